@@ -38,6 +38,9 @@ POINTS = {
     "E": ("c1", 12), "F": ("d0", 6), "G": ("d1", 12), "H": ("n0", 0),
     "I": ("n1", 6), "J": ("far", 6), "K": ("xlat", 6), "L": ("xlon", 0),
     "M": ("c1", 1000),
+    # times between whole seconds: |dt| = 9.25 to A (inside whichever point
+    # is the earlier one), 10.25 from O to D (inside for 10.5 s only)
+    "N": ("c1", 9.25), "O": ("c1", -0.25),
 }
 # scan lines for the gridded variant: (second, position, position)
 LINES = {
@@ -149,8 +152,8 @@ def admissible(desc):
 
 
 def times_of(secs):
-    return np.array([EPOCH + int(s) * SEC for s in secs],
-                    dtype="datetime64[ns]")
+    return np.array([EPOCH + np.timedelta64(int(round(s * 1e9)), "ns")
+                     for s in secs], dtype="datetime64[ns]")
 
 
 def build(desc, id0, dim):
@@ -319,13 +322,31 @@ def judge(obs, pts1, pts2, exp):
                         "original point's")
     for k, pair in enumerate(got):
         sec, km = exp[pair]
-        if interval[k] != sec:
+        # stored in whole seconds: anything a full second or more from
+        # |dt| is not |dt| (for whole-second times: anything but |dt|)
+        if not abs(interval[k] - sec) < 1:
             return ("interval/not-abs-dt-in-seconds", sec,
                     float(interval[k]), "pair %r" % (pair,))
         if not abs(distance[k] - km) <= 1e-6 * km + 1e-6:
             return ("distance/not-chord-in-km", km, float(distance[k]),
                     "pair %r" % (pair,))
     return None
+
+
+def intervals_by_pair(obs, transposed=False):
+    """{(primary id, secondary id): stored interval in s} of a result."""
+    if obs[0] != "data":
+        return {}
+    out = obs[1]
+    pairs = np.asarray(out["Collocations/pairs"].values)
+    ids1 = np.asarray(out["primary/id"].values)
+    ids2 = np.asarray(out["secondary/id"].values)
+    sec = np.asarray(out["Collocations/interval"].values) / SEC
+    got = {}
+    for i, j, v in zip(pairs[0], pairs[1], sec.tolist()):
+        key = (int(ids1[i]), int(ids2[j]))
+        got[key[::-1] if transposed else key] = v
+    return got
 
 
 def same(a, b):
